@@ -2,7 +2,7 @@
 """Writes /verif/MANIFEST.json. Edit CHECKS / NOT_APPLICABLE here, then run this script."""
 import json, subprocess
 
-HOOK_COMMITS = ["c13a16c", "6375c04"]
+HOOK_COMMITS = ["c13a16c", "6375c04", "8c58cb6"]
 FIX_COMMITS = ["5745400", "ae98e56", "dcffde2", "7418ea5", "efb55bc", "see git -C /repo log --grep ^fix:"]
 
 WIRE_NOTE = ("Trusted: the simulator itself (executor, pipe, model, oracle); AsyncTransport implementations are "
